@@ -48,23 +48,22 @@ Definition apply_instruction (s : Sim) (i : Instr) : res (VS * VS) :=
   end.
 
 (* ---- step_simulation_ops.apply_instructions ---- *)
-(* phase 1: build (prev, next) for every instruction against the running sim, recording the
-   instruction in applied_instructions as soon as it produced a result *)
-Definition apply_phase1 (acc : Sim * list (VS * VS)) (i : Instr) : Sim * list (VS * VS) :=
-  let '(s, results) := acc in
+(* phase 1: build (prev, next) for every instruction against the *initial* sim (phase 1 does not change it) *)
+Definition apply_phase1 (s : Sim) (acc : list (Instr * (VS * VS))) (i : Instr) : list (Instr * (VS * VS)) :=
   match apply_instruction s i with
-  | Ok r => (s <| applied := PM.add (instr_vid i) i (applied s) |>, results ++ [r])
-  | _ => (s, results)
+  | Ok r => acc ++ [(i, r)]
+  | _ => acc
   end.
-(* phase 2: exit-then-enter; an error or a refusal keeps the previous sim *)
-Definition apply_phase2 (s : Sim) (r : VS * VS) : Sim :=
+(* phase 2: exit-then-enter; an error or a refusal keeps the previous sim; only an instruction that took
+   effect is recorded in applied_instructions *)
+Definition apply_phase2 (s : Sim) (ir : Instr * (VS * VS)) : Sim :=
+  let '(i, r) := ir in
   match transition env s (fst r) (snd r) with
-  | Ok s' => s'
+  | Ok s' => s' <| applied := PM.add (instr_vid i) i (applied s') |>
   | _ => s
   end.
 Definition apply_instructions (s : Sim) (is : list Instr) : Sim :=
-  let '(s1, results) := fold_left apply_phase1 is (s, []) in
-  fold_left apply_phase2 results s1.
+  fold_left apply_phase2 (fold_left (apply_phase1 s) is []) s.
 
 (* ---- step_simulation_ops.perform_vehicle_state_updates ---- *)
 Definition is_queueing (st : VState) : bool := match st with ChargeQueueing _ _ _ => true | _ => false end.
